@@ -13,6 +13,7 @@ MACRO_SETS = [
     [("tracing", "event"), ("log", "e")],
     [("log", "info"), ("tracing", "info"), ("log", "warn"), ("slog", "warn"), ("logger", "info")],
     [("app::diag", "note"), ("app", "warn"), ("diag", "note")],
+    [("my_app::telemetry", "event"), ("vendor::deep::nested::logmod", "rec"), ("log", "info")],
 ]
 
 
@@ -67,7 +68,7 @@ def build(fileseed, specs, macros, structured, eol):
             decoy(cls, pos)
         elif pos == "before_stmt_same_line":
             d = decoy(cls, pos)
-            if cls in ("line_comment", "doc_comment", "inner_doc", "line_trailing_backslash", "line_comment_after_string", "line_comment_bare_cr"):
+            if cls in ("line_comment", "doc_comment", "inner_doc", "line_trailing_backslash", "line_comment_after_string", "line_comment_bare_cr", "line_comment_after_lifetime"):
                 gf.newline()       # a line comment swallows the rest of its line by definition
                 gf.raw("    ")
             else:
